@@ -12,38 +12,38 @@ GRID = "bounded-exhaustive enumeration of an input grid against an independent r
 # id -> (category, technique, text, note, design_ref)
 CHECKS = {
     "C01": ("model_checking", MC,
-            "Every sequence of group operations up to the depth bound from the initial group and 9 scripted tree-gallery seeds is executed on real Group objects; after every accepted commit all members are compared through an epoch ledger (context, roster, exported tree, epoch authenticator, exports) and every ordered pair decrypts on forks. A coverage statement over all histories within the bound, which a scripted test cannot give.",
-            "Trusted: rustc/std, the explorer, sha2; crypto providers as black boxes. Bounded to <=5 identities, depth 3 (quick) / 4 (thorough), no delivery deviations inside a round.", "DESIGN.md 2/C01"),
+            "Every sequence of group operations up to the depth bound from the initial group and 11 scripted tree-gallery seeds is executed on real Group objects; after every accepted commit all members are compared through an epoch ledger (context, roster, exported tree, epoch authenticator, exports) and every ordered pair decrypts on forks. A coverage statement over all histories within the bound, which a scripted test cannot give.",
+            "Trusted: rustc/std, the explorer, sha2; crypto providers as black boxes. Bounded to <=5 identities, depth 3 (quick) / 4 (thorough) from the initial group and 2 / 3 from 11 seeds; deviation bound K = 1 (quick) / 2 (thorough) over two kinds of deviating round (a raced commit that loses, the committer's own commit echoed back).", "DESIGN.md 2/C01"),
     "C02": ("model_checking", MC,
             "On the same exhaustive traversal, every HPKE encryption made while a commit is built is checked against the copath resolutions of the new tree as computed by an independent tree parser, and every later message is offered to every retained ex-member state and outsider.",
             "Trusted: explorer, reference tree parser (RFC 9420 4.1.1), recording provider wrapper. Same bounds as C01.", "DESIGN.md 2/C02"),
     "C03": ("model_checking", "exhaustive mutation enumeration over a corpus of real messages with their pre-delivery worlds: all bit flips, all truncations, all field splices, cross-epoch / cross-group / post-state replays, insider re-signed forgeries, adversarial-committer structural mutations; every mutant delivered to every legitimate receiver of the real implementation",
-            "For every message kind of a scripted world and every legitimate receiver: every single-bit flip, truncation, field splice with a same-epoch partner, replay into other epochs / another group / the post-state is rejected without panic (genuine deliveries are accepted and truthfully reported); insider forgeries (re-attribution re-signed with the forger's key under a valid membership tag) are rejected; structurally invalid commits from an adversarial committer whose library computes everything downstream consistently never panic and wrong path lengths are rejected by everybody.",
+            "For every message kind of a scripted world and every legitimate receiver: every single-bit flip, truncation, field splice with a same-epoch partner, replay into other epochs / another group / the post-state is rejected without panic (genuine deliveries are accepted and truthfully reported); insider forgeries are rejected: public proposals re-attributed and re-signed with the forger's key under a valid membership tag, and private application messages built from scratch under every other member's ratchet (right key, nonce, sender data, AAD) but signed with the forger's key; authentic private messages with a non-zero padding byte are rejected; structurally invalid commits from an adversarial committer whose library computes everything downstream consistently never panic and wrong path lengths are rejected by everybody.",
             "Trusted: explorer, reference framing parser, hooks verif_epoch_keys (H6) and encap::Mutation (H7). One scripted world per configuration (2 quick, 12 thorough).", "DESIGN.md 2/C03"),
     "C04": ("model_checking", MC + "; in every state a menu of must-be-rejected messages is enumerated per member (fault/mutation enumeration on forks)",
             "In every state of a history traversal and for every member, every region of every deliverable genuine message is mutated once per kind (bit flips, truncations), plus semantically unacceptable authentic messages and failing builds; each on a fork: the complete canonical state (hook H1) must be identical after the error, the genuine message must then lead to the twin's state, and the next send must be accepted.",
             "Trusted: explorer, hook verif_state normal forms (DESIGN 1.4a), reference framing parser. Depth one less than C01. Known findings F-C04-1/2 (ratchet key consumed by rejected private messages) are listed in known-findings.json.", "DESIGN.md 2/C04"),
     "C05": ("model_checking", MC + "; AEAD (key, nonce) pairs and random draws observed through a recording crypto-provider wrapper",
             "Every interleaving (to the depth bound) of application sends by two senders, encrypted proposals, deliveries in any order and write+reload of either side: no (key, nonce) is ever used twice, application and handshake keys are disjoint, the reuse guard is freshly drawn and applied, every first delivery succeeds, every re-delivery (also after reload) is refused; plus the 1024-generation window boundary in both directions.",
-            "Trusted: explorer, recording provider wrapper; the receiver-side ratchet value comes from the library's own secret_tree_access API. 3 members, depth 7 (quick) / 8 (thorough).", "DESIGN.md 2/C05"),
+            "Trusted: explorer, recording provider wrapper; the receiver-side ratchet value comes from the library's own secret_tree_access API. 3 members, depth 8 (quick) / 10 (thorough).", "DESIGN.md 2/C05"),
     "C06": ("fault_enumeration", "exhaustive enumeration of (history, write positions, crash/reload point, retention, store) cases, each executed from scratch on the real implementation over a tee of the shipped in-memory store, the shipped SQLite store and a reference store model",
             "Every history of the target member up to the depth bound x every set of write positions x every reload point x retention x shipped store: load-after-write equals the saved member (complete state), a crash after any unwritten tail loads exactly the last written state, a reloaded copy stays in lockstep with the never-reloaded member, and all reads agree between in-memory store, SQLite store and model.",
             "Trusted: explorer, hook verif_state, reference store model. Crash points lie between storage trait calls; SQLite on an in-memory connection.", "DESIGN.md 2/C06"),
     "C07": ("model_checking", MC,
-            "On the same traversal every Welcome/external joiner is ledger-compared with the members, its key package deletion is checked around its first write, and its first commit must be accepted; plus an enumerated mismatch matrix of Welcomes/trees/GroupInfos that must not produce a group.",
-            "Trusted: explorer, harness stores. Same bounds as C01.", "DESIGN.md 2/C07"),
+            "On the same traversal every Welcome/external joiner is ledger-compared with the members, its key package deletion is checked around its first write, and its first commit must be accepted; plus (checks/c07x.rs) an enumerated mismatch matrix of Welcomes / trees / key packages / GroupInfos that must not produce a group and must leave the joiner's stores and the members unchanged, a last-resort key package that must survive, every re-join-with-the-same-storage scenario (write pattern x way of leaving x gap x re-entry x next commit), and the shipped key-package stores against a map for every short operation sequence.",
+            "Trusted: explorer, harness stores. Same bounds as C01. Known finding F-C07-1 (re-joiner with stale epoch records cannot follow the group) is listed in known-findings.json.", "DESIGN.md 2/C07, 7.3, 7.5"),
     "C08": ("model_checking", MC,
             "After every commit of the traversal every member's exported tree is re-parsed and re-hashed from scratch by an independent implementation (tree hash, parent-hash chains, unmerged lists, blank rules) and validated by a fresh external observer.",
             "Trusted: explorer, reference tree parser + sha2. Same bounds as C01 with a tree-shaping alphabet.", "DESIGN.md 2/C08"),
     "C09": ("model_checking", MC,
-            "After every commit of the traversal every stored private key of every member is tested against the public key of the corresponding node of the exported tree (HPKE seal/open as black box); blank nodes must carry no key; committer path keys must be fresh.",
+            "After every commit of the traversal every stored private key of every member is tested against the public key of the corresponding node of the exported tree (HPKE seal/open as black box); blank nodes must carry no key; committer path keys must be fresh; a leaf private key replaced by an own update or commit must be gone from the state the member would store.",
             "Trusted: explorer, reference tree parser, hook verif_private_keys (read-only). Same bounds as C01.", "DESIGN.md 2/C09"),
-    "C10": ("model_checking", "exhaustive enumeration of (seed tree, committer, set of <=3 by-reference proposal atoms out of 17, by-value atom out of 8) cases on forks of real worlds, judged by committer/receiver agreement and a coarse RFC 9420 rule table",
-            "Every such case is executed on real members: proposals are sent and delivered (also in reverse order and with one missing), the committer commits, and every receiver must accept with the same applied / unused proposals and epoch state; a member missing a referenced proposal must refuse and stay unchanged; invalid by-value atoms make the build fail, invalid by-reference atoms are never applied, lone valid atoms are applied.",
-            "Trusted: explorer, hook verif_state. Where the RFC leaves the choice among conflicting proposals to the committer only agreement is demanded. Receive-side rejection of rules an honest library cannot be made to violate is covered only through C03's adversarial committer.", "DESIGN.md 2/C10"),
+    "C10": ("model_checking", "exhaustive enumeration of (seed tree, committer, set of <=3 (thorough <=4) by-reference proposal atoms out of 18, by-value atom out of 8) cases on forks of real worlds, judged by committer/receiver agreement and a coarse RFC 9420 rule table; plus enumerated sets of correctly signed external-sender / new-member proposals, and an adversarial committer (hook H8) over enumerated invalid proposal sets",
+            "Every such case is executed on real members: proposals are sent and delivered (also in reverse order and with one missing), the committer commits, and every receiver must accept with the same applied / unused proposals and epoch state; a member missing a referenced proposal must refuse and stay unchanged; invalid by-value atoms make the build fail, invalid by-reference atoms are never applied, lone valid atoms are applied. Proposals of external senders and new members (valid and with a sender RFC 9420 12.1 does not allow for the type) are committed by reference with the same agreement oracle; 22 invalid proposal sets built into consistent commits by an adversarial committer must be refused by every receiver, 3 valid control sets accepted.",
+            "Trusted: explorer, hook verif_state. Where the RFC leaves the choice among conflicting proposals to the committer only agreement is demanded. Receive-side rejection is exercised through hook H8 (lenient proposal filter of the committer); sets for which the committer cannot compute a consistent result even leniently are reported as not constructible.", "DESIGN.md 2/C10"),
     "C11": ("model_checking", MC,
             "Three real members race in one epoch; every interleaving (to the depth bound) of commit / commit_detached / clear / apply / apply_detached with any kept secrets / delivery of any candidate commit, with any candidate as the epoch's winner, is executed and judged against a reference machine {epoch, pending} per member, complete-state equality for what must not change, and the epoch ledger for what advances.",
-            "Trusted: explorer, hook verif_state. 3 members, depth 4 (quick) / 6 (thorough), public and encrypted handshake.", "DESIGN.md 2/C11"),
+            "Trusted: explorer, hook verif_state. 3 members, depth 5 (quick) / 7 (thorough), public and encrypted handshake; plus the race / echo deviations of the history model on the full commit alphabet.", "DESIGN.md 2/C11"),
     "C12": ("model_checking", "bounded-exhaustive input enumeration: every offset x boundary byte set, every truncation, every length-prefix rewrite of every item of a corpus of real messages and stored values; all 1/2-byte (thorough: all 4-byte) varints; enumerated Arbitrary seeds",
             "Every corpus item (all message kinds, exported trees, stored snapshots and epoch records, commit secrets, cached proposals, external snapshots; public and encrypted configurations) round-trips with exact length; every single-byte boundary replacement, truncation and length-prefix rewrite decodes to Err or to a value whose re-encoding is the consumed bytes, without panic and within an allocation bound measured by a counting allocator; varints are accepted exactly in shortest form.",
             "Trusted: explorer, counting global allocator, reference varint reader. Hash-map backed storage formats are judged on length/panic/allocation only (no canonical byte order exists for them).", "DESIGN.md 2/C12"),
@@ -51,26 +51,26 @@ CHECKS = {
             "Every derivation (key schedule, secret tree, per-generation keys, PSK chain, exporter, ExpandWithLabel) is compared with an independent RFC 9420 implementation over an enumerated input grid for every suite of every provider, and every epoch of scripted real groups is re-derived by the reference from the Welcome's joiner secret / the previous init secret and compared with what the members hold, including transcript hashes and tags recomputed from wire bytes.",
             "Trusted: reference::keysched on sha2/hmac; hook derive::* (thin wrappers over the crate-private functions) and verif_epoch_keys (read-only).", "DESIGN.md 2/C13"),
     "C14": ("model_checking", "bounded-exhaustive enumeration of an input grid (lengths, malformed keys, certificate chain defects x validation times) through every pair of shipped providers side by side, plus bounded-exhaustive exploration of mixed-provider groups (every assignment of 3 providers to 4 parties, stateless DFS over real members)",
-            "For every pair of providers and every common suite all deterministic primitives are byte-compared over a length grid, randomised ones are cross-consumed in both directions (signatures, HPKE base/PSK, setup_s/setup_r, export), malformed keys / tags / lengths must get the same verdict, every provider assignment of a 4-party group is driven through all short histories with the C01 agreement oracle, and generated certificate chains (depth 1-3 x 10 defect kinds x 5 validation times at the validity boundaries) must get the same and the implied verdict from the three X.509 validators.",
-            "Trusted: the `openssl` crate as certificate generator. Providers are compared with each other, not with test vectors (C13 compares the derivations with an independent reference).", "DESIGN.md 2/C14"),
+            "For every pair of providers and every common suite all deterministic primitives are byte-compared over a length grid, randomised ones are cross-consumed in both directions (signatures, HPKE base/PSK, setup_s/setup_r, export), malformed keys / tags / lengths must get the same verdict, every provider assignment of a 4-party group is driven through all short histories with the C01 agreement oracle, and generated certificate chains (depth 1-3 x 16 variants x 5 validation times at the validity boundaries) must get the same and the implied verdict from the three X.509 validators, which must return the public key of the chain's first certificate.",
+            "Trusted: the `openssl` crate as certificate generator. Known findings F-C14-1..4 are listed in known-findings.json. Providers are compared with each other, not with test vectors (C13 compares the derivations with an independent reference).", "DESIGN.md 2/C14"),
     "C16": ("model_checking", MC + "; observers (ExternalGroup) at every start epoch and jitter setting are driven along every explored history",
             "On an exhaustive history traversal with public handshake messages, observers created at every epoch with every max_epoch_jitter setting must accept exactly what members accept, hold the members' context/roster/tree after every commit (also across snapshot/load), refuse corrupted, replayed and unresolvable commits, let ciphertexts through exactly inside the configured window without ever panicking, and have their external-sender proposals accepted and committed by members.",
             "Trusted: explorer, reference framing parser (signature offset). Same bounds as C01 (depth 3 quick / 4 thorough).", "DESIGN.md 2/C16"),
     "C17": ("model_checking", "exhaustive enumeration of (old-group shape, re-init/branch, creator, successor member set, key-package order) cases executed from scratch on the real implementation, judged by an identity-set predicate",
-            "Old-group gallery (dense, interior blank leaf, re-keyed member, external-commit joiner) x re-init / branch x every creator x every successor member set (all subsets, superset by an outsider, each member replaced) x key-package orders: creation and joining succeed exactly when the identity sets are equal (re-init) / a subset (branch); outsiders, ex-members and cross-used Welcomes are refused; the old group refuses commits after the re-init.",
+            "Old-group gallery (dense, interior blank leaf, re-keyed member, external-commit joiner) x re-init / branch x every creator x every successor member set (all subsets, superset by an outsider, each member replaced) x key-package orders: creation and joining succeed exactly when the identity sets are equal (re-init) / a subset (branch); outsiders, ex-members and cross-used Welcomes are refused; the old group refuses commits after the re-init; every re-init case in 4 parameter variants (given / no group id, changed context extensions, other cipher suite) must yield a successor with exactly the announced parameters, and an unlinked group with the successor's id is refused by ReinitClient::join.",
             "Trusted: explorer. 6 identities, 6 old-group shapes.", "DESIGN.md 2/C17"),
     "C18": ("model_checking", "exhaustive enumeration of (PSK list, by value/by reference, holder assignment) cases on forks of a real base world, judged by a reference 'holds every listed PSK' predicate",
-            "Every ordered PSK list of 1..3 entries over two external ids and resumption epochs 0..7, by value and by reference, with every assignment of {same, other, absent} values to two receivers and a Welcome joiner whose retention windows and join epochs differ: a party reaches the new epoch exactly when it holds the committer's value for every listed PSK, otherwise it refuses and is unchanged; all derived epoch secrets are sensitive to value, id, nonce and order of any one PSK.",
+            "Every ordered PSK list of 1..3 entries over two external ids and resumption epochs 0..7, by value and by reference, with every assignment of {same, other, absent} values to two receivers and a Welcome joiner whose retention windows and join epochs differ: a party reaches the new epoch exactly when it holds the committer's value for every listed PSK, otherwise it refuses and is unchanged; all derived epoch secrets are sensitive to value, id, nonce and order of any one PSK; a resumption PSK naming another group is never resolvable (every committer x epoch number); an external commit injecting an external PSK is followed exactly by the members holding the joiner's value (81 assignments).",
             "Trusted: explorer, hook verif_state / derive. 4 parties, one commit per case.", "DESIGN.md 2/C18"),
     "C19": ("model_checking", "exhaustive enumeration of (retention, commit chain, send epoch, write pattern, sender-leaf fate, store) cases executed from scratch on the real implementation over the tee store, judged by a reference retention model",
             "Every (retention, chain length, send epoch, subset of write positions, fate of the sender's leaf, answering store) case: a late message decrypts exactly when its epoch lies in the model's retention window and the leaf still carries the sender's signature key; the stored window is read back epoch by epoch from both shipped stores after every write.",
-            "Trusted: explorer, reference retention model, tee store. R in 1..3, chains up to R+2 (quick) / R+3 (thorough) commits.", "DESIGN.md 2/C19"),
+            "Trusted: explorer, reference retention model, tee store. R in 1..3 (thorough 1..4), chains up to R+2 (quick) / R+4 (thorough) commits.", "DESIGN.md 2/C19"),
     "C20": ("model_checking", "exhaustive enumeration of all tree sizes 2^0..2^12 and all node indices / leaf pairs against the recursive RFC definitions (sizes above 2^12: spines exhaustive, interior sampled and reported as sampled)",
             "All node indices of all full trees up to 2^12 leaves (and 8 beyond), all leaf pairs up to 2^10 (quick) / 2^12 (thorough) leaves, against the recursive Appendix C definitions.",
             "Trusted: reference::treemath (recursive definitions). Sizes 2^13..2^24 are partly sampled (VERIF_SEED) and not counted as exhaustive.", "DESIGN.md 2/C20"),
     "C15": ("fault_enumeration", "exhaustive single and pairwise storage-fault enumeration on every operation of every explored history (real implementation, harness-owned stores with a fault plan)",
-            "For every history (to the depth bound) of a target member and every operation in it, every storage call the operation makes is failed once and in pairs on forks: the operation must fail, leave complete state and stores unchanged, and a fault-free retry must end exactly like the fault-free twin.",
-            "Trusted: explorer, harness stores implementing the documented store semantics (the shipped stores are exercised in C06/C19), hook verif_state. Faults are injected between trait calls; torn writes inside one call are out of reach of the seam.", "DESIGN.md 2/C15"),
+            "For every history (to the depth bound) of a target member and every operation in it, every storage call the operation makes is failed once and in pairs on forks: the operation must fail, leave complete state and stores unchanged, and a fault-free retry must end exactly like the fault-free twin. Depth 5 (quick) / 6 (thorough).",
+            "Trusted: explorer, harness stores implementing the documented store semantics (the shipped stores are exercised in C06/C19), hook verif_state. Faults are injected between trait calls; torn writes inside one call are out of reach of the seam. Known finding F-C15-1 (encrypted commit + storage fault, thorough tier) is listed in known-findings.json.", "DESIGN.md 2/C15, 7.5"),
 }
 
 NOT_YET ="check not built yet (work in progress; see DESIGN.md section 2)"
@@ -85,10 +85,10 @@ def main():
         cat, tech, text, note, ref = CHECKS[pid]
         checks.append({
             "property_id": pid,
-            "quick_cmd": f"bin/check {pid} quick",
-            "thorough_cmd": f"bin/check {pid} thorough",
+            "quick_cmd": f"cd /verif && bin/check {pid} quick",
+            "thorough_cmd": f"cd /verif && bin/check {pid} thorough",
             "evidence_file": f"/verif/evidence/{pid}.json",
-            "replay_cmd_template": f"bin/check {pid} replay {{path}}",
+            "replay_cmd_template": f"cd /verif && bin/check {pid} replay {{path}}",
             "engine": "mlsmc",
             "level_claimed": {"category": cat, "text": text, "design_ref": ref},
             "level_note": note,
